@@ -186,10 +186,28 @@ def _masked_hook(ctx, module, K):
     return hook
 
 
+def hook_check_tag(mach, args):
+    """tag comparison on expressions: identical tag expressions mean the tags
+    are equal for every value; anything else is treated as a mismatch"""
+    pt, plen, t1, t2, size = args
+    n = to_int(size)
+    pl = to_int(plen)
+    if n is None or pl is None:
+        raise Unsupported("symbolic sizes in check_tag")
+    same = mach.load(t1, n) == mach.load(t2, n)
+    mach.tag_checks = getattr(mach, "tag_checks", []) + [same]
+    if same:
+        return const_bits(0, 32)
+    if pl and isinstance(pt, Ptr) and pt.obj != "null":
+        mach.store(pt, const_bits(0, 8) * pl)
+    return const_bits(0xffffffff, 32)
+
+
 def machine(m, ctx, layout, maxs=4):
     mc = Machine(m)
     mc._wordops = affine.WordOps(m, maxs)
     install(mc, ctx, layout, m)
+    mc.hooks["ascon_aead_check_tag"] = hook_check_tag
     return mc
 
 
@@ -429,6 +447,26 @@ class Spec:
 
     def kdf(self, variant_a, K, custom, outlen):
         return self.cxof(variant_a, b"KDF", custom, K, outlen, outlen)
+
+    def pbkdf2(self, password, salt, count, outlen):
+        """RFC 8018 PBKDF2 with PRF(P, x) = ASCON-cXOF("PBKDF2", P, x, 32)"""
+        return self._pbkdf2(lambda x: self.cxof(False, b"PBKDF2", password, x, 32, 32), salt, count, outlen)
+
+    def pbkdf2_hmac(self, password, salt, count, outlen):
+        return self._pbkdf2(lambda x: self.hmac(False, password, x), salt, count, outlen)
+
+    def _pbkdf2(self, prf, salt, count, outlen):
+        count = max(count, 1)
+        out, i = [], 1
+        while len(out) < outlen * 8:
+            U = prf(tuple(salt) + cbytes(i.to_bytes(4, "big")))
+            T = U
+            for _ in range(count - 1):
+                U = prf(U)
+                T = xor(T, U)
+            out += list(T)
+            i += 1
+        return tuple(out[:outlen * 8])
 
     # -- SIV -------------------------------------------------------------------------
     def siv_encrypt(self, alg, K, N, A, M):
